@@ -289,12 +289,23 @@ func downloadToFile(ctx context.Context, url, outPath string) error {
 		return err
 	}
 
-	ofh, err := os.Create(outPath)
+	// Download into a temporary file and rename it when complete, so that a failed or interrupted
+	// download never leaves a partial file that a later run would skip as already downloaded.
+	tmpPath := outPath + ".part"
+	ofh, err := os.Create(tmpPath)
 	if err != nil {
 		return err
 	}
 	_, err = io.Copy(ofh, resp.Body)
+	closeErr := ofh.Close()
+	if err == nil {
+		err = closeErr
+	}
+	if err == nil {
+		err = os.Rename(tmpPath, outPath)
+	}
 	if err != nil {
+		_ = os.Remove(tmpPath)
 		return err
 	}
 	slog.Debug("stored", "path", outPath)
